@@ -132,6 +132,10 @@ func (w *c13world) gen(d int) *c13m {
 		}
 	}
 	n := w.r.Intn(5)
+	if w.r.Intn(60) == 0 {
+		n = 10 + w.r.Intn(40) // a wide node from time to time
+		d = 1
+	}
 	if n == 0 {
 		m.node = ast.NewEmptyNonTerminalNode("N", parsley.Pos(m.id), ip)
 		w.byNode[m.node] = m
